@@ -59,10 +59,10 @@ RULE_TREE = ("one evaluation = one seeded history (3..40 steps quick, ..60 thoro
              "distinct = distinct digest of the generated trace")
 
 PLANS = {
-    "C06": tree_plan("C06", "exploration", RULE_TREE, 1500, 30000),
-    "C07": tree_plan("C07", "exploration", RULE_TREE + "; per probed position every single-field proof alteration in the menu is enumerated", 500, 8000),
-    "C08": tree_plan("C08", "exploration", RULE_TREE + "; batch-heavy op mix (removals before/inside/after/interleaved, empty parts, out of range)", 1500, 30000),
-    "C15": tree_plan("C15", "exploration", RULE_TREE + "; includes close/reopen and drop/reopen of path-backed persistent nodes", 1500, 30000),
+    "C06": tree_plan("C06", "exploration", RULE_TREE, 1500, 8000),
+    "C07": tree_plan("C07", "exploration", RULE_TREE + "; per probed position every single-field proof alteration in the menu is enumerated", 500, 2500),
+    "C08": tree_plan("C08", "exploration", RULE_TREE + "; batch-heavy op mix (removals before/inside/after/interleaved, empty parts, out of range)", 1500, 8000),
+    "C15": tree_plan("C15", "exploration", RULE_TREE + "; includes close/reopen and drop/reopen of path-backed persistent nodes", 1500, 8000),
 }
 
 
